@@ -11,9 +11,12 @@ Generator : histories of job-table operations over xonsh/procs/jobs.py, executed
             (interactive or not), $XONSH_INTERACTIVE / $AUTO_CONTINUE flips, respawn of the alias
             thread.  Every operation runs either on the main thread or inside a worker thread
             standing for a callable-alias thread, in lock-step (the harness owns the interleaving at
-            command granularity).  Two families: (a) every history of length <= 4 (quick) / 5
-            (thorough) over a fixed 19-operation alphabet, enumerated completely; (b) Hypothesis
-            RuleBasedStateMachine histories of up to 40 / 60 steps.
+            command granularity).  Three families: (a) every history of length <= 4 (quick) / 5
+            (thorough) over a fixed 20-operation alphabet that starts with an add_job, enumerated
+            completely; (b) Hypothesis RuleBasedStateMachine histories of up to 40 / 60 steps;
+            (c) the same model against real children: `sleep 300 &` run through the real Execer
+            (specs._run_command_pipeline -> add_job), SIGKILL as process exit, jobs / disown /
+            purges / refused fg and bg, compared with /proc after every step.
 Oracle    : a reference model written from the property text and docs/tutorial.rst "Job Control":
             per table a dict of entries (live or finished-but-not-yet-purged) and an MRU list.
             After every step, for the main table and for the alias thread's own table: the deque has
@@ -52,8 +55,9 @@ LEVEL = "exploration"
 RULE = ("history = sequence of job-table operations (add_job, process exit, jobs, fg, bg, disown with valid / "
         "invalid / duplicate / garbage arguments, purges, get_next_task, get_next_job_number, clean_jobs, env flips, "
         "alias-thread respawn), each run on the main thread or in an alias-like worker thread in lock-step, against "
-        "stub processes; all histories of length <= 4 (quick) / 5 (thorough) over a fixed 19-operation alphabet "
-        "are enumerated, longer ones (<= 40 / 60 steps) are drawn by a Hypothesis state machine; non-trivial = the "
+        "stub processes; all histories of length <= 4 (quick) / 5 (thorough) over a fixed 20-operation alphabet "
+        "that start with an add_job are enumerated, longer ones (<= 40 / 60 steps) are drawn by a Hypothesis state "
+        "machine, and a third family drives real `sleep 300 &` children through the Execer; non-trivial = the "
         "history contains a step executed on a table holding >= 2 live jobs or a finished job not yet purged; "
         "distinct = hash of the operation list")
 HOOKS = False
@@ -84,26 +88,26 @@ class StubProc:
 
     pid = None
 
-    def __init__(self, key, log):
+    def __init__(self, key):
         self.key = key
         self.returncode = None
-        self._log = log
+        self.calls = []         # harmless: nothing here reaches the OS
 
     def poll(self):
         return self.returncode
 
     def wait(self, timeout=None):
-        self._log.append(("wait", self.key))
+        self.calls.append("wait")
         return self.returncode
 
     def send_signal(self, sig):
-        self._log.append(("send_signal", self.key, int(sig)))
+        self.calls.append("send_signal %d" % int(sig))
 
     def kill(self):
-        self._log.append(("kill", self.key))
+        self.calls.append("kill")
 
     def terminate(self):
-        self._log.append(("terminate", self.key))
+        self.calls.append("terminate")
 
 
 class StubSpec:
@@ -160,10 +164,11 @@ class Actor:
 
 
 class MJob:
-    __slots__ = ("key", "info", "proc", "bg", "status", "alive")
+    __slots__ = ("key", "info", "proc", "bg", "status", "alive", "tag")
 
-    def __init__(self, key, info, proc, bg, status):
+    def __init__(self, key, info, proc, bg, status, tag=None):
         self.key = key
+        self.tag = tag or "k%d" % key       # a word of the `jobs` line that identifies this job
         self.info = info
         self.proc = proc
         self.bg = bg
@@ -400,6 +405,8 @@ class Harness:
         if len(ops) > 50:       # common.jsonable() cuts lists at 60 items: store long histories in chunks
             ops = [ops[i:i + 50] for i in range(0, len(ops), 50)]
         case = {"ops": ops, "tolerate": sorted(self.tolerate)}
+        if isinstance(self, RealHarness):
+            case["real"] = True
         op = self.ops[-1]["op"] if self.ops else "init"
         raise Mismatch(Failure(kind, case, "step %d %s: %s" % (len(self.ops), _show(self.ops[-1]) if self.ops else "",
                                                                detail),
@@ -509,7 +516,8 @@ class Harness:
     def _check_tables(self, op):
         xj = self.xj
         if self.sig_log:
-            self._fail("signal-sent", "a signal call reached the OS for a stub job: %r" % (self.sig_log,))
+            self._fail("signal-sent", "xonsh tried to signal something other than this harness's own children: %r"
+                       % (self.sig_log,))
         if xj.get_jobs() is not self.XSH.all_jobs or xj.get_tasks() is not xj._tasks_main:
             self._fail("thread-table", "the main thread no longer uses XSH.all_jobs / _tasks_main")
         cur = self._w_seen
@@ -545,7 +553,7 @@ class Harness:
         T = self.tables[actor]
         key = self.nkeys
         self.nkeys += 1
-        proc = StubProc(key, self.sig_log)
+        proc = StubProc(key)
         pl = StubPipeline(key, op.get("captured", False), self.resume_log)
         info = {"cmds": [["vjob", "k%d" % key]], "pids": [None], "obj": proc, "bg": bool(op["bg"]),
                 "pipeline": pl, "pgrp": None}
@@ -599,8 +607,8 @@ class Harness:
             mj = T.entries.get(num)
             if mj is None:
                 continue
-            if not re.search(r"\bk%d\b" % mj.key, ln.split(":", 1)[1]) or status != mj.status:
-                self._fail("jobs-listing", "line %r does not describe job %d (k%d, %s)" % (ln, num, mj.key, mj.status))
+            if not re.search(r"\b%s\b" % mj.tag, ln.split(":", 1)[1]) or status != mj.status:
+                self._fail("jobs-listing", "line %r does not describe job %d (%s, %s)" % (ln, num, mj.tag, mj.status))
             if posix:
                 want = "+" if T.mru[0] == num else "-" if len(T.mru) > 1 and T.mru[1] == num else " "
                 if mark != want:
@@ -759,7 +767,8 @@ def _flat_ops(case):
 
 def check_history(case):
     """Replay one history without Hypothesis -> (Failure | None, harness)."""
-    h = Harness(tolerate=case.get("tolerate", DEFAULT_TOLERATE))
+    cls = RealHarness if case.get("real") else Harness
+    h = cls(tolerate=case.get("tolerate", DEFAULT_TOLERATE))
     try:
         try:
             for op in _flat_ops(case):
@@ -775,12 +784,12 @@ def minimize_history(case, bucket, budget=4000):
     """Greedy reduction of a failing history after Hypothesis' own shrinker (which works under a time
     limit): drop operations, then simplify their fields, while the same bucket keeps failing."""
     ops = [dict(o) for o in _flat_ops(case)]
-    tol = case.get("tolerate", list(DEFAULT_TOLERATE))
+    base = {"tolerate": case.get("tolerate", list(DEFAULT_TOLERATE)), "real": bool(case.get("real"))}
     runs = [0]
 
     def fails(cand):
         runs[0] += 1
-        f, _ = check_history({"ops": cand, "tolerate": tol})
+        f, _ = check_history(dict(base, ops=cand))
         return f is not None and f.bucket == bucket and len(_flat_ops(f.case)) == len(cand)
 
     changed = True
@@ -810,14 +819,19 @@ def minimize_history(case, bucket, budget=4000):
                         ops = cand
                         changed = True
                         break
-    f, _ = check_history({"ops": ops, "tolerate": tol})
+    f, _ = check_history(dict(base, ops=ops))
     return f
 
 
 def _record(st, h, family):
     nt = h.nontrivial_steps > 0
     labels = [family, "len:%02d-%02d" % (h.steps // 10 * 10, h.steps // 10 * 10 + 9)]
-    st.case(("h", h.ops), nt, labels, sample={"ops": h.ops} if nt and h.steps <= 14 else None, max_per_label=2)
+    sample = None
+    if nt and 4 <= h.steps <= 14 and st.evaluations >= _ctx.get("sample_after", 0):
+        sample = {"ops": h.ops}
+        if isinstance(h, RealHarness):
+            sample["real"] = True
+    st.case(("h", h.ops), nt, labels, sample=sample, max_per_label=2)
     st.hist.update(h.hist)
     st.hist["steps"] += h.steps
     for fid, n in h.tolerated.items():
@@ -838,6 +852,7 @@ ALPHABET = [
     {"op": "fg", "args": []},
     {"op": "fg", "args": ["-"]},
     {"op": "fg", "args": ["1"]},
+    {"op": "fg", "args": ["9"]},
     {"op": "bg", "actor": "w", "args": ["2"]},
     {"op": "bg", "actor": "m", "args": ["+"]},
     {"op": "disown", "actor": "m", "args": []},
@@ -856,8 +871,9 @@ def _useful(seq):
 
 
 def worker_exhaustive(arg):
-    shard, nshards, depth, scratch = arg
+    shard, nshards, depth, tol, scratch = arg
     _setup(scratch)
+    _ctx.clear()
     st = Stats()
     i = 0
     for n in range(1, depth + 1):
@@ -867,7 +883,7 @@ def worker_exhaustive(arg):
             i += 1
             if i % nshards != shard:
                 continue
-            case = {"ops": [dict(ALPHABET[k]) for k in seq], "tolerate": list(DEFAULT_TOLERATE)}
+            case = {"ops": [dict(ALPHABET[k]) for k in seq], "tolerate": list(tol)}
             f, h = check_history(case)
             _record(st, h, "enumerated")
             if f is not None:
@@ -1020,11 +1036,11 @@ def make_machine():
 
 
 def worker_machine(arg):
-    seed, machines, steps, shrink_seconds, scratch = arg
+    seed, machines, steps, shrink_seconds, tol, scratch = arg
     _setup(scratch)
     st = Stats()
     _ctx.clear()
-    _ctx.update(stats=st, tolerate=DEFAULT_TOLERATE, frozen=False)
+    _ctx.update(stats=st, tolerate=tuple(tol), frozen=False, sample_after=(seed % 8) * 11)
     exc = common.run_machine(make_machine(), seed, machines, steps, shrink=True, shrink_seconds=shrink_seconds)
     f = common.machine_failure(exc, "C20 job-table machine")
     if f is not None:
@@ -1036,10 +1052,216 @@ def worker_machine(arg):
     return st
 
 
+
+# ----------------------------------------------------------------------------------------
+# family (c): the same model against real child processes (`sleep 300 &` through the Execer)
+
+
+def _proc_state(pid):
+    try:
+        with open("/proc/%d/stat" % pid) as f:
+            return f.read().rsplit(")", 1)[1].split()[0]
+    except OSError:
+        return None
+
+
+def _own_sleep(pid):
+    try:
+        with open("/proc/%d/stat" % pid) as f:
+            head, tail = f.read().rsplit(")", 1)
+    except OSError:
+        return False
+    return head.split("(", 1)[1] == "sleep" and int(tail.split()[1]) == os.getpid()
+
+
+class RealHarness(Harness):
+    """add = run `sleep 300 &` through the real Execer (-> specs._run_command_pipeline -> add_job),
+    finish = SIGKILL that child and wait until the kernel reports it dead.  fg / bg are only issued
+    with arguments that must be refused (a successful fg would wait for the sleep)."""
+
+    def __init__(self, tolerate=DEFAULT_TOLERATE):
+        self.own_pids = set()
+        self.started = []
+        self.disowned = []
+        super().__init__(tolerate=tolerate)
+
+    def _guard(self, name):
+        real = os.kill if name == "kill" else os.killpg
+
+        def guarded(pid, sig):
+            # xonsh may signal the `sleep` children of this process (SIGCONT after start and on
+            # `disown -c`); anything else (another pid, a process group) would be a defect and must not
+            # reach the OS
+            if name == "kill" and isinstance(pid, int) and pid > 1 and _own_sleep(pid):
+                return real(pid, sig)
+            self.sig_log.append((name, repr(pid), repr(sig)))
+        return guarded
+
+    def close(self):
+        for p in self.started:
+            try:
+                if p.poll() is None:
+                    self._real_kill(p.pid, signal.SIGKILL)
+                p.wait()
+            except Exception:  # noqa: BLE001
+                pass
+        # children that xonsh started but did not register (possible only on a broken tree)
+        for d in os.listdir("/proc"):
+            if d.isdigit() and _own_sleep(int(d)):
+                try:
+                    self._real_kill(int(d), signal.SIGKILL)
+                    os.waitpid(int(d), 0)
+                except OSError:
+                    pass
+        super().close()
+
+    def _op_add(self, op):
+        from vlib import session
+
+        T = self.tables["m"]
+        old = [mj.info for mj in T.entries.values()]
+        self._invoke("m", lambda: session.xexec("sleep 300 &\n"))
+        T.purge()
+        num = T.lowest_free()
+        jobs = self.XSH.all_jobs
+        new = sorted(n for n, j in jobs.items() if not any(j is o for o in old))
+        if new != [num]:
+            for n in new:
+                self._adopt(jobs[n])
+            self._fail("job-number", "`sleep 300 &` registered under %r, reference: exactly once under %d "
+                       "(lowest free)" % (new, num))
+        info = jobs[num]
+        proc = self._adopt(info)
+        key = self.nkeys
+        self.nkeys += 1
+        T.entries[num] = MJob(key, info, proc, True, "running", tag=str(proc.pid))
+        T.mru.insert(0, num)
+        if info.get("pids") != [proc.pid]:
+            self._fail("wrong-job", "job %d lists pids %r for process %d" % (num, info.get("pids"), proc.pid))
+
+    def _adopt(self, info):
+        proc = info["obj"]
+        self.started.append(proc)
+        self.own_pids.add(proc.pid)
+        return proc
+
+    def _op_finish(self, op):
+        mj = self.tables["m"].entries.get(op["num"])
+        if mj is None or not mj.alive:
+            return
+        self._real_kill(mj.proc.pid, signal.SIGKILL)
+        os.waitid(os.P_PID, mj.proc.pid, os.WEXITED | os.WNOWAIT)     # dead, not yet reaped: poll() will see it
+        mj.alive = False
+
+    def _op_disown(self, op):
+        before = dict(self.tables["m"].entries)
+        super()._op_disown(op)
+        for n, mj in before.items():
+            if mj.alive and self.tables["m"].entries.get(n) is not mj:
+                self.disowned.append(mj)
+
+    def _check_tables(self, op):
+        super()._check_tables(op)
+        for mj in self.tables["m"].entries.values():
+            if mj.alive and _proc_state(mj.proc.pid) in (None, "Z", "X"):
+                self._fail("process-gone", "process %d of a registered live job is gone" % mj.proc.pid)
+        for mj in self.disowned:
+            if _proc_state(mj.proc.pid) in (None, "Z", "X"):
+                self._fail("process-gone", "process %d died although its job was only disowned" % mj.proc.pid)
+
+    def _op_clean(self, op):
+        raise common.HarnessError("clean_jobs is not part of the real-process family (it hangs up every job)")
+
+    _op_respawn = _op_clean
+
+
+def make_real_machine():
+    from hypothesis import strategies as st
+    from hypothesis.stateful import RuleBasedStateMachine, initialize, precondition, rule
+
+    actors = st.sampled_from(["m", "w"])
+    refused = st.sampled_from([["abc"], ["0"], ["-1"], ["99"], ["1", "2"], ["%1"], ["+", "-"]])
+
+    class RealJobsMachine(RuleBasedStateMachine):
+        def __init__(self):
+            super().__init__()
+            self.h = RealHarness(tolerate=_ctx.get("tolerate", DEFAULT_TOLERATE))
+
+        def teardown(self):
+            h = self.h
+            h.close()
+            stats = _ctx.get("stats")
+            if stats is not None and not h.failed and not _ctx.get("frozen"):
+                _record(stats, h, "real-processes")
+            if h.failed:
+                _ctx["frozen"] = True
+
+        @initialize(n=st.integers(1, 3))
+        def start(self, n):
+            for _ in range(n):
+                self.h.apply({"op": "add", "actor": "m", "bg": True, "real": True})
+
+        @precondition(lambda self: len(self.h.tables["m"].mru) < 6)
+        @rule()
+        def add(self):
+            self.h.apply({"op": "add", "actor": "m", "bg": True, "real": True})
+
+        @precondition(lambda self: bool(self.h.tables["m"].live()))
+        @rule(pick=st.integers(0, 31))
+        def kill(self, pick):
+            live = self.h.tables["m"].live()
+            self.h.apply({"op": "finish", "table": "m", "num": live[pick % len(live)]})
+
+        @rule(actor=actors, posix=st.booleans())
+        def jobs(self, actor, posix):
+            self.h.apply({"op": "jobs", "actor": actor, "posix": posix})
+
+        @rule(cmd=st.sampled_from(["fg", "bg"]), actor=actors, args=refused)
+        def refused_resume(self, cmd, actor, args):
+            op = {"op": cmd, "args": args}
+            if cmd == "bg":
+                op["actor"] = actor
+            self.h.apply(op)
+
+        @rule(actor=actors, fl=st.sampled_from([[], [], ["-c"]]), picks=st.lists(st.integers(0, 31), max_size=2),
+              extra=st.sampled_from([None, None, "9", "x"]))
+        def disown(self, actor, fl, picks, extra):
+            nums = sorted(self.h.tables["m"].mru)
+            ids_ = list(dict.fromkeys(str(nums[p % len(nums)]) for p in picks)) if nums else []
+            if extra is not None:
+                ids_.append(extra)
+            self.h.apply({"op": "disown", "actor": actor, "args": fl + ids_})
+
+        @rule(op=st.sampled_from([{"op": "clear", "actor": "m"}, {"op": "next_num", "actor": "m"},
+                                  {"op": "next_task", "actor": "m"}]))
+        def misc(self, op):
+            self.h.apply(dict(op))
+
+    return RealJobsMachine
+
+
+def worker_real(arg):
+    seed, machines, steps, tol, scratch = arg
+    _setup(scratch)
+    st = Stats()
+    _ctx.clear()
+    _ctx.update(stats=st, tolerate=tuple(tol), frozen=False)
+    exc = common.run_machine(make_real_machine(), seed, machines, steps, shrink=True, shrink_seconds=8)
+    f = common.machine_failure(exc, "C20 real-process machine")
+    if f is not None:
+        st.fail(minimize_history(f.case, f.bucket, budget=60) or f)
+    return st
+
 # ----------------------------------------------------------------------------------------
 
 
 def _replay_check(run, case):
+    fid = case.get("finding")
+    if fid and fid not in run.known_open and fid not in run.known_fixed:
+        # a finding replay whose entry is not (yet) in known_findings.json is treated like a generated
+        # history, i.e. with the generator's tolerance; `run.py C20 --replay <file>` always runs it strictly
+        case = dict(case, tolerate=list(DEFAULT_TOLERATE))
+        run.stats.notes.append("replay of %s ran with the generator's tolerance: no entry in the known-findings file" % fid)
     f, h = check_history(case)
     if f is not None and not f.finding:
         # the committed history fails in a way that is not the recorded finding: report it as what it is
@@ -1049,19 +1271,39 @@ def _replay_check(run, case):
 
 
 def main(run):
+    import time
+
+    t0 = time.time()
+    phases = run.extra.setdefault("phase_wall_s", {})
+
+    def lap(name):
+        nonlocal t0
+        phases[name] = round(time.time() - t0, 1)
+        t0 = time.time()
+
     _setup(run.scratch)
     common.replay_tier(run, lambda case: _replay_check(run, case))
+    lap("replays")
     quick = run.tier != "thorough"
+    # the shape of an open (or not yet registered) finding is tolerated, exactly, in generated histories;
+    # once a finding is marked fixed nothing is tolerated any more
+    tol = [fid for fid in DEFAULT_TOLERATE if fid not in run.known_fixed]
     nw = 8 if quick else 16
     depth = run.n(4, 5)
-    common.pool_map(run, __name__, "worker_exhaustive", [(i, nw, depth, run.scratch) for i in range(nw)], procs=nw)
+    common.pool_map(run, __name__, "worker_exhaustive", [(i, nw, depth, tol, run.scratch) for i in range(nw)], procs=nw)
+    lap("enumerated")
     run.extra["exhaustive_subspace"] = ("every history of length <= %d over the %d-operation alphabet that starts "
                                         "with an add_job" % (depth, len(ALPHABET)))
-    machines = run.n(450, 9000)
+    machines = run.n(450, 15000)
     steps = run.n(40, 60)
     common.pool_map(run, __name__, "worker_machine",
-                    [(common.worker_seed(run.seed, w), machines, steps, 20 if quick else 60, run.scratch)
+                    [(common.worker_seed(run.seed, w), machines, steps, 10 if quick else 60, tol, run.scratch)
                      for w in range(nw)], procs=nw)
+    lap("generated")
+    common.pool_map(run, __name__, "worker_real",
+                    [(common.worker_seed(run.seed, 200 + w), run.n(10, 250), run.n(12, 25), tol, run.scratch)
+                     for w in range(run.n(2, 4))], procs=4)
+    lap("real-processes")
     run.extra["steps_executed"] = run.stats.hist.get("steps", 0)
     run.extra["nontrivial_steps"] = run.stats.hist.get("step-nontrivial", 0)
     run.assumptions += [
